@@ -168,4 +168,45 @@ def refAtom (r : JoinRef) : OnAtom :=
 def joinOnAtoms (refs : List JoinRef) (queryClauses : Nat) (userOn : Nat) : List OnAtom :=
   refs.map refAtom ++ (List.range queryClauses).map .scope ++ (List.range userOn).map .user
 
+
+/-! ## callbacks/preload.go `preloadEntryPoint`: walking through JOINED relations of a single-struct destination
+
+  For a relation that is already joined the entry point does not query; it descends into the joined value:
+  `case reflect.Struct, reflect.Pointer: reflectValue := rel.Field.ReflectValueOf(ctx, rv); … preloadEntryPoint(tx, nestedJoins, …)`.
+  `ReflectValueOf` is `reflect.Indirect(rv).Field(i)`: on a nil pointer (the LEFT JOIN found no row) it panics.  When the
+  remaining path is not joined the walk ends in `preload`, which tolerates a nil pointer
+  (`GetIdentityFieldValuesMap` on an invalid value returns nothing).  (The slice branch skips nil elements.) -/
+
+inductive JVal where
+  | nilp
+  | obj (fields : List (List Char × JVal))
+deriving Repr
+
+def jfield : List (List Char × JVal) → List Char → Option JVal
+  | [], _ => none
+  | (k, v) :: rest, f => if k = f then some v else jfield rest f
+
+/-- `true` = the walk completes, `false` = nil-pointer dereference; `hops` = the consecutive joined relations on the
+    preload path, starting at `v` -/
+def entryWalk : JVal → List (List Char) → Bool
+  | _, [] => true
+  | .nilp, _ :: _ => false
+  | .obj fs, f :: rest =>
+    match jfield fs f with
+    | some v => entryWalk v rest
+    | none => true
+
+/-- value reached after following `hops` -/
+def jreach : JVal → List (List Char) → Option JVal
+  | v, [] => some v
+  | .nilp, _ :: _ => none
+  | .obj fs, f :: rest =>
+    match jfield fs f with
+    | some v => jreach v rest
+    | none => none
+
+def JVal.isNil : JVal → Bool
+  | .nilp => true
+  | .obj _ => false
+
 end Gorm
